@@ -72,7 +72,10 @@ func histories(c *vf.Ctx) {
 	for _, f := range cfgs {
 		b, err := build(f)
 		if err != nil {
-			c.Fatalf("cannot build credential: %v", err)
+			c.Check("C14/history/credential-of-every-version-can-be-built-and-serialised", false, func() string {
+				return fmt.Sprintf("building and serialising a credential (cfg %+v) fails: %v", f, err)
+			})
+			return
 		}
 		bs = append(bs, b)
 	}
